@@ -253,11 +253,12 @@ def replay(ck, wd, variant, cases, label, keyfn):
             continue
         seen.add(k)
         case = cases[rec['ci'] - 1]
-        c2 = os.path.join(wd, 'confirm.txt'); t2 = os.path.join(wd, 'confirm.ndjson')
-        write_cases(c2, [case]); sh([exe, c2, t2], timeout=60)
-        v2 = validate_trace(wd, 'Trace_Lane', 'Trace_Lane.cfg', t2, nsplit=1)
-        if v2['rejected']:
-            ck.violation('%s build: %s' % (variant, keyfn(case, rec)), json.dumps(vlib.compact(rec))[:500], dict(cases=[json.loads(json.dumps(case))]))
+        how = vlib.confirm_case(wd, 'Trace_Lane', 'Trace_Lane.cfg', lambda cp, tp: [exe, cp, tp], write_cases, cases, rec['ci'])
+        if how:
+            ck.violation('%s build: %s%s' % (variant, keyfn(case, rec), vlib.HIST if how == 'history' else ''), json.dumps(vlib.compact(rec))[:500],
+                         dict(cases=[json.loads(json.dumps(x)) for x in (cases[:rec['ci']] if how == 'history' else [case])]))
+        else:
+            ck.note('rejection of kernel %s not reproduced on re-run (neither alone nor after its process history)' % k)
     ck.cov.setdefault('rejected_records', 0)
     ck.cov['rejected_records'] += len(v['rejected'])
 
